@@ -20,17 +20,19 @@ impl Img {
 const DESC: [u8; 16] = [0x10, 0x21, 0x32, 0x43, 0x54, 0x65, 0x76, 0x87, 0x98, 0xa9, 0xba, 0xcb, 0xdc, 0xed, 0xfe, 0x0f];
 const TEXT: [u8; 24] = [1, 2, 3, 4, 5, 6, 7, 8, 9, 10, 11, 12, 13, 14, 15, 16, 0xf0, 0xe0, 0xd0, 0xc0, 0xb0, 0xa0, 0x90, 0x80];
 
-fn build_elf(with_note: bool) -> Img { build_elf_ex(with_note, false) }
+fn build_elf(with_note: bool) -> Img { build_elf_ex(with_note, None, false) }
 
-/// `data_first`: an allocated, non-executable PROGBITS section (like .rodata/.interp) precedes .text
-fn build_elf_ex(with_note: bool, data_first: bool) -> Img {
+/// `data_first`: a PROGBITS section with these flags (SHF_ALLOC only, like .rodata/.interp; or SHF_EXECINSTR only)
+/// precedes .text; `abi_first`: a GNU ABI-tag note (name "GNU", type 1) precedes the build-id note
+fn build_elf_ex(with_note: bool, data_first_flags: Option<u64>, abi_first: bool) -> Img {
+    let data_first = data_first_flags.is_some();
     let shstr: &[u8] = b"\0.text\0.note.gnu.build-id\0.shstrtab\0.dynamic\0.dynstr\0";
     let dynstr: &[u8] = b"\0libfoo.so.1\0";
     let (phoff, phnum, shnum) = (64u64, 3u16, if data_first { 7u16 } else { 6u16 });
     let shoff = phoff + 56 * phnum as u64;
     let data0 = shoff + 64 * shnum as u64;
     let note_off = data0;
-    let note_len = 12 + 4 + 16u64;
+    let note_len = 12 + 4 + 16u64 + if abi_first { 12 + 4 + 16 } else { 0 };
     let shstr_off = note_off + note_len;
     let dyn_off = (shstr_off + shstr.len() as u64 + 7) & !7;
     let dyn_len = 4 * 16u64;
@@ -52,7 +54,7 @@ fn build_elf_ex(with_note: bool, data_first: bool) -> Img {
     sh(&mut i, 0, 0, 0, 0, 0, 0, 0, 0);
     if data_first {
         // PROGBITS, SHF_ALLOC only, covering the dynstr bytes: must NOT be taken for the text section
-        sh(&mut i, 45, 1, 2, dynstr_off, dynstr.len() as u64, 0, 1, 0);
+        sh(&mut i, 45, 1, data_first_flags.unwrap(), dynstr_off, dynstr.len() as u64, 0, 1, 0);
     }
     sh(&mut i, 1, 1, 6, text_off, TEXT.len() as u64, 0, 16, 0);
     sh(&mut i, if with_note { 7 } else { 0 }, if with_note { 7 } else { 0 }, 2, note_off, note_len, 0, 4, 0);
@@ -60,7 +62,8 @@ fn build_elf_ex(with_note: bool, data_first: bool) -> Img {
     sh(&mut i, 36, 6, 3, dyn_off, dyn_len, if data_first { 6 } else { 5 }, 8, 16);
     sh(&mut i, 45, 3, 2, dynstr_off, dynstr.len() as u64, 0, 1, 0);
     assert_eq!(i.b.len() as u64, data0);
-    // note
+    // notes
+    if abi_first { i.u32(4); i.u32(16); i.u32(1); i.raw(b"GNU\0"); i.raw(&[0, 0, 0, 0, 3, 0, 0, 0, 2, 0, 0, 0, 0, 0, 0, 0]); }
     i.u32(4); i.u32(16); i.u32(3); i.raw(b"GNU\0"); i.raw(&DESC);
     i.raw(shstr);
     while (i.b.len() as u64) < dyn_off { i.raw(&[0]); }
@@ -88,11 +91,36 @@ fn c14_well_formed_image_is_identified() {
     for (k, b) in TEXT.iter().enumerate() { want[k % 16] ^= b; }
     assert_eq!(id, want, "generated id == XOR-fold of .text");
     // an allocated but non-executable PROGBITS section in front of .text is not "the first executable section"
-    let img = build_elf_ex(false, true);
+    let img = build_elf_ex(false, Some(2), false);
     let BuildId(id) = BuildId::read_from_module(ProcessMemory::Slice(&img.b)).expect("generated build id");
     assert_eq!(id, want, "generated id == XOR-fold of the first EXECUTABLE section, not of the first allocated one");
     let SoName(n) = SoName::read_from_module(ProcessMemory::Slice(&img.b)).expect("soname");
     assert_eq!(n, "libfoo.so.1");
+    // ... nor is a PROGBITS section that is executable but NOT allocated
+    let img = build_elf_ex(false, Some(4), false);
+    let BuildId(id) = BuildId::read_from_module(ProcessMemory::Slice(&img.b)).expect("generated build id");
+    assert_eq!(id, want, "generated id == XOR-fold of the first allocated executable section");
+    // a GNU note of another type (ABI tag) in front of the build-id note is not the build id
+    let img = build_elf_ex(true, None, true);
+    let BuildId(id) = BuildId::read_from_module(ProcessMemory::Slice(&img.b)).expect("build id");
+    assert_eq!(id, DESC, "build id == descriptor of the NT_GNU_BUILD_ID note, not of the first GNU note");
+    // each of the two routes on its own: (a) no section headers at all (a module read from process memory):
+    // program headers only; (b) no PT_NOTE / PT_DYNAMIC program headers: sections only
+    let mut a = build_elf(true).b;
+    a[40..48].copy_from_slice(&0u64.to_le_bytes()); // e_shoff
+    a[60..62].copy_from_slice(&0u16.to_le_bytes()); // e_shnum
+    a[62..64].copy_from_slice(&0u16.to_le_bytes()); // e_shstrndx
+    let BuildId(id) = BuildId::read_from_module(ProcessMemory::Slice(&a)).expect("build id via program headers");
+    assert_eq!(id, DESC, "program headers only: build id");
+    let SoName(n) = SoName::read_from_module(ProcessMemory::Slice(&a)).expect("soname via program headers");
+    assert_eq!(n, "libfoo.so.1", "program headers only: SONAME");
+    let mut b = build_elf(true).b;
+    b[64 + 56..64 + 56 + 4].copy_from_slice(&0u32.to_le_bytes());          // PT_NOTE    -> PT_NULL
+    b[64 + 2 * 56..64 + 2 * 56 + 4].copy_from_slice(&0u32.to_le_bytes());  // PT_DYNAMIC -> PT_NULL
+    let BuildId(id) = BuildId::read_from_module(ProcessMemory::Slice(&b)).expect("build id via sections");
+    assert_eq!(id, DESC, "sections only: build id");
+    let SoName(n) = SoName::read_from_module(ProcessMemory::Slice(&b)).expect("soname via sections");
+    assert_eq!(n, "libfoo.so.1", "sections only: SONAME");
 }
 
 #[test]
